@@ -162,10 +162,36 @@ def build_harness():
     return rc == 0, out[-4000:], round(dt, 1)
 
 
+class Slot:
+    """one of NSLOTS machine-wide slots for a shard evaluation: several checks started at the same time
+    (each with 16 worker threads) still run at most NSLOTS `coqc` processes between them"""
+    NSLOTS = 16
+
+    def __enter__(self):
+        d = os.path.join(CACHE, "slots")
+        os.makedirs(d, exist_ok=True)
+        k = os.getpid() % self.NSLOTS
+        while True:
+            for i in range(self.NSLOTS):
+                f = open(os.path.join(d, "slot_%d.lock" % ((k + i) % self.NSLOTS)), "w")
+                try:
+                    fcntl.flock(f, fcntl.LOCK_EX | fcntl.LOCK_NB)
+                    self.f = f
+                    return self
+                except OSError:
+                    f.close()
+            time.sleep(0.05)
+
+    def __exit__(self, *a):
+        fcntl.flock(self.f, fcntl.LOCK_UN)
+        self.f.close()
+
+
 def run_coqc(path):
     d = os.path.dirname(path)
-    rc, out, dt = sh(["timeout", "1700", "coqc", "-noglob", "-Q", COQ, "CwPlus", os.path.basename(path)], cwd=d,
-                     timeout=1800)
+    with Slot():
+        rc, out, dt = sh(["timeout", "1700", "coqc", "-noglob", "-Q", COQ, "CwPlus", os.path.basename(path)], cwd=d,
+                         timeout=1800)
     return path, rc, out, dt
 
 
